@@ -266,7 +266,21 @@ class Stats:
 # sharded exploration
 
 
+import signal
+
+CASE_TIMEOUT = int(os.environ.get("VERIF_CASE_TIMEOUT", "600"))
+
+
+class _CaseTimeout(BaseException):
+    pass
+
+
+def _on_alarm(signum, frame):
+    raise _CaseTimeout()
+
+
 def _worker(args):
+    signal.signal(signal.SIGALRM, _on_alarm)
     (mod_name, wid, nworkers, tier, seed, gen_name, eval_name) = args
     import importlib
 
@@ -285,7 +299,14 @@ def _worker(args):
                 st.caps_hit.append(f"time cap hit in worker {wid} at case index {idx}")
                 break
             try:
-                r = ev(case)
+                signal.alarm(CASE_TIMEOUT)
+                try:
+                    r = ev(case)
+                finally:
+                    signal.alarm(0)
+            except _CaseTimeout:
+                st.harness_errors.append(f"case did not finish within {CASE_TIMEOUT}s (a command under test blocks?): {canon(case)[:400]}")
+                continue
             except HarnessError as e:
                 st.harness_errors.append(f"{type(e).__name__}: {e} on case {canon(case)[:400]}")
                 if len(st.harness_errors) > 20:
